@@ -44,6 +44,7 @@ func rulesC13(c *Ctx) {
 	ruleC13Codec(c)
 	ruleBucketMemoInvalidated(c, "C13.BUCKETMEMO")
 	ruleParentChain(c, "C13.CHAIN")
+	ruleCursorValidity(c, "C13.VALIDNIL", "C13.VALIDSRC", "boltz", "ast")
 	ruleC13List(c)
 	ruleC13ListMark(c)
 	ruleProceedTable(c, "C13.PROCEED")
